@@ -26,7 +26,7 @@ var c07Queries = []string{
 	`{ pets { name ... on Cat { toys } ... on Dog { barks } } }`,
 }
 
-var faultKinds = []string{"transport", "gqlerrors", "gqlerrors+data", "node-null", "empty", "wrong-shape", "gqlerrors+null"}
+var faultKinds = []string{"transport", "gqlerrors", "gqlerrors+data", "node-null", "empty", "wrong-shape", "gqlerrors+null", "timeout"}
 
 type joinSite struct {
 	svc, id string
@@ -84,7 +84,7 @@ func (c07) Cases(tier string) int {
 }
 
 func (c07) Rule() string {
-	return "for fixed and generated queries over the fixed and random federations the calls of a fault-free run are listed as (service, join id); then fault assignments over those calls are applied: every single call x every outcome kind {transport error, error list, errors+partial data, errors with node:null, node:null, empty payload, wrong-shape payload}, every pair of calls, and random subsets; checked: no panic, no hang, no error when nothing was injected, every injected error message is in the returned list (as a multiset), a null/malformed payload yields at least one error, every value present in the data equals the monolith's at that position, and every call that was answered normally has its fields in the data at each object it joined onto; non-trivial = at least 2 calls and 1 fault; distinct = distinct (federation, query, fault assignment)"
+	return "for fixed and generated queries over the fixed and random federations the calls of a fault-free run are listed as (service, join id); then fault assignments over those calls are applied: every single call x every outcome kind {transport error, error list, errors+partial data, errors with node:null, an error wrapping the deadline error of that one call, node:null, empty payload, wrong-shape payload}, every pair of calls, and random subsets; checked: no panic, no hang, no error when nothing was injected, every injected error message is in the returned list (as a multiset) and, with its message, in the HTTP response of the same request, a null/malformed payload yields at least one error, every value present in the data equals the monolith's at that position, and every call that was answered normally has its fields in the data at each object it joined onto; non-trivial = at least 2 calls and 1 fault; distinct = distinct (federation, query, fault assignment)"
 }
 
 type callKey struct{ svc, id string }
@@ -240,10 +240,18 @@ func (c07) Run(c *Ctx, i int) CaseResult {
 	case 1: // two calls
 		a, b := pick(), pick()
 		faults = []FaultSpec{{Service: a.svc, MatchID: a.id, Kind: faultKinds[r.Intn(len(faultKinds))]}, {Service: b.svc, MatchID: b.id, Kind: faultKinds[r.Intn(len(faultKinds))]}}
-	case 2: // random subset
+	case 2: // random subset; half of the time all of one kind (several calls failing in the very same way)
+		oneKind := ""
+		if r.Intn(2) == 0 {
+			oneKind = faultKinds[r.Intn(len(faultKinds))]
+		}
 		for _, k := range calls {
 			if r.Intn(3) == 0 {
-				faults = append(faults, FaultSpec{Service: k.svc, MatchID: k.id, Kind: faultKinds[r.Intn(len(faultKinds))]})
+				kind := oneKind
+				if kind == "" {
+					kind = faultKinds[r.Intn(len(faultKinds))]
+				}
+				faults = append(faults, FaultSpec{Service: k.svc, MatchID: k.id, Kind: kind})
 			}
 		}
 	case 3: // none: the control
@@ -387,11 +395,20 @@ func (c07) Run(c *Ctx, i int) CaseResult {
 			wantMsgs["injected-with-data"] += n
 		case "gqlerrors+null":
 			wantMsgs["injected-with-null"] += n
+		case "timeout":
+			wantMsgs["did not answer in time"] += n
 		}
 	}
 	for m, n := range wantMsgs {
 		if got := count(m); got != n {
 			bad("L0.errors", fmt.Sprintf("error %q was injected %d times and is reported %d times", m, n, got), obs)
+		}
+	}
+	if o.Err != nil && !o.Hung && len(res.Fails) == 0 {
+		// reported faithfully to the client too: the HTTP response of the same request carries every error with its message
+		if hf := HTTPErrorsFail(in, fc.Store, errMultiset(o.Err)); hf != nil {
+			hf.Classifier = class
+			res.Fails = append(res.Fails, *hf)
 		}
 	}
 	if shapes > 0 && injectedErrs == 0 && o.Err == nil {
